@@ -283,6 +283,17 @@ pub enum Event {
         begin: Option<IKey>,
         end: Option<IKey>,
     },
+    /// `remove_obsolete_files` decided what to delete: what it consulted (live table numbers, WAL
+    /// numbers, manifest number), every non-directory path it looked at with the folder it was
+    /// found in ("wal", "data", "main"), and the paths it put on its deletion list
+    ObsoletePass {
+        live: Vec<u64>,
+        wal_number: u64,
+        prev_wal_number: Option<u64>,
+        manifest_number: u64,
+        listed: Vec<(&'static str, String)>,
+        deleted: Vec<String>,
+    },
     ManualRound {
         level: usize,
         begin: Option<IKey>,
@@ -1256,4 +1267,35 @@ pub fn pick_level(
         version.pick_level_for_memtable_output(smallest_user_key, largest_user_key)
     }))
     .map_err(|_| "panic".to_string())
+}
+
+/// The path the database uses for a file of the given kind ("wal", "table", "manifest", "temp",
+/// "current", "lock") and number, under the database path `db_path`.
+pub fn file_name_format(db_path: &str, kind: &str, number: u64) -> Option<String> {
+    let handler = crate::file_names::FileNameHandler::new(db_path.to_string());
+    let path = match kind {
+        "wal" => handler.get_wal_file_path(number),
+        "table" => handler.get_table_file_path(number),
+        "manifest" => handler.get_manifest_file_path(number),
+        "temp" => handler.get_temp_file_path(number),
+        "current" => handler.get_current_file_path(),
+        "lock" => handler.get_lock_file_path(),
+        _ => return None,
+    };
+    Some(path.to_string_lossy().to_string())
+}
+
+/// The real `FileNameHandler::get_file_type_from_name` on a path: "wal:<n>", "table:<n>",
+/// "manifest:<n>", "temp:<n>", "current", "lock" or "err".
+pub fn file_name_parse(path: &str) -> String {
+    use crate::file_names::{FileNameHandler, ParsedFileType};
+    match FileNameHandler::get_file_type_from_name(std::path::Path::new(path)) {
+        Ok(ParsedFileType::WriteAheadLog(number)) => format!("wal:{number}"),
+        Ok(ParsedFileType::TableFile(number)) => format!("table:{number}"),
+        Ok(ParsedFileType::ManifestFile(number)) => format!("manifest:{number}"),
+        Ok(ParsedFileType::TempFile(number)) => format!("temp:{number}"),
+        Ok(ParsedFileType::CurrentFile) => "current".to_string(),
+        Ok(ParsedFileType::DBLockFile) => "lock".to_string(),
+        Err(_) => "err".to_string(),
+    }
 }
